@@ -374,7 +374,7 @@ func targetParams(tp *typePrinter, fn *ssa.Function) []ghostParam {
 	}
 	for _, fv := range fn.FreeVars {
 		t := fv.Type()
-		if pt, ok := t.(*types.Pointer); ok {
+		if pt, ok := t.(*types.Pointer); ok && !keepPtrFV(pt.Elem()) {
 			t = pt.Elem()
 		}
 		ps = append(ps, ghostParam{fv.Name(), tp.str(t)})
@@ -554,6 +554,10 @@ func generateGhost(p *packages.Package, funcs map[string]*ssa.Function, cs *Cont
 			}
 			for i, c := range l.IterLets {
 				emit(c, fmt.Sprintf("zz_ilet_%s_%d_%d", mn, o, i), lp, c.Type, target, true)
+				lp = append(lp, ghostParam{c.Name, c.Type})
+			}
+			for i, c := range l.EndLets {
+				emit(c, fmt.Sprintf("zz_elet_%s_%d_%d", mn, o, i), lp, c.Type, target, true)
 				lp = append(lp, ghostParam{c.Name, c.Type})
 			}
 			for i, c := range l.Iters {
@@ -737,4 +741,12 @@ func synthName(g *ssa.Function) string {
 		}
 	}
 	return s
+}
+
+// keepPtrFV: captured variables of sync types (Once, Mutex, ...) have identity: clauses see a pointer to them.
+func keepPtrFV(t types.Type) bool {
+	if n, ok := t.(*types.Named); ok && n.Obj().Pkg() != nil && n.Obj().Pkg().Path() == "sync" {
+		return true
+	}
+	return false
 }
